@@ -281,7 +281,9 @@ mod resp {
         let (c, p) = codes[rng.below(5) as usize];
         let methods = ["GET", "HEAD", "OPTIONS", "POST", "get"];
         let m = methods[rng.below(5) as usize].to_string();
-        (Response { http_version: "HTTP/1.1".into(), status_code: c, reason_phrase: p.into(), headers, content_range_list: list }, m)
+        // every protocol version the library knows (a response of each is written and must be read back)
+        let ver = ["HTTP/1.1", "HTTP/1.1", "HTTP/1.0", "HTTP/0.9", "HTTP/2.0"][rng.below(5) as usize];
+        (Response { http_version: ver.into(), status_code: c, reason_phrase: p.into(), headers, content_range_list: list }, m)
     }
     pub fn check(seed: u64) -> Option<String> {
         let (r, m) = case(seed);
@@ -556,9 +558,18 @@ mod e2e {
     fn count<'a>(p: &'a Parsed, n: &str) -> Vec<&'a String> { p.headers.iter().filter(|(k, _)| k.eq_ignore_ascii_case(n)).map(|(_, v)| v).collect() }
 
     // every response-level clause that should hold for any request; returns (case, observation)
-    pub fn check(name: &str, raw: &[u8]) -> Vec<(String, String)> {
+    // the legacy entry point (Server::process_request: one read into the configured buffer, App::handle_request)
+    pub fn run_legacy(raw: &[u8], chunk: usize, flush_fails: bool) -> Result<Vec<u8>, String> {
+        let mut m = Mock { input: raw.to_vec(), pos: 0, out: vec![], chunk, flush_fails };
+        let peer = std::net::SocketAddr::new(std::net::IpAddr::V4(std::net::Ipv4Addr::new(127, 0, 0, 1)), 4000);
+        let r = panic::catch_unwind(panic::AssertUnwindSafe(|| { let _ = Server::process_request(&mut m, peer); }));
+        match r { Ok(()) => Ok(m.out), Err(_) => Err("panic".into()) }
+    }
+    pub fn check(name: &str, raw: &[u8]) -> Vec<(String, String)> { check_entry(name, raw, false) }
+    pub fn check_entry(name: &str, raw: &[u8], legacy: bool) -> Vec<(String, String)> {
         let mut bad = vec![];
-        let out = match run(raw, 0, false) { Ok(o) => o, Err(e) => { bad.push(("c04_panic".to_string(), e)); return bad; } };
+        let go = |raw: &[u8], chunk: usize, flush_fails: bool| if legacy { run_legacy(raw, chunk, flush_fails) } else { run(raw, chunk, flush_fails) };
+        let out = match go(raw, 0, false) { Ok(o) => o, Err(e) => { bad.push(("c04_panic".to_string(), e)); return bad; } };
         if out.is_empty() { bad.push(("c04_no_response".into(), "nothing written".into())); return bad; }
         let p = match parse(&out) { Some(p) => p, None => {
             let shown = format!("{:?}", String::from_utf8_lossy(&out[..out.len().min(200)]));
@@ -585,13 +596,13 @@ mod e2e {
         let known = [(200, "OK"), (204, "No Content"), (206, "Partial Content"), (400, "Bad Request"), (404, "Not Found"), (416, "Range Not Satisfiable"), (500, "Internal Server Error"), (501, "Not Implemented")];
         if !known.iter().any(|(c, r)| *c == p.status && *r == p.reason) { bad.push(("c05_status_line".into(), format!("{} {}", p.status, p.reason))); }
         // delivery under short writes
-        match run(raw, 1, false) { Ok(o1) => { if o1.len() != out.len() { bad.push(("c05_short_write".into(), format!("{} of {} bytes delivered with 1-byte writes", o1.len(), out.len()))); } }
+        match go(raw, 1, false) { Ok(o1) => { if o1.len() != out.len() { bad.push(("c05_short_write".into(), format!("{} of {} bytes delivered with 1-byte writes", o1.len(), out.len()))); } }
                                    Err(e) => bad.push(("c04_panic".into(), e)) }
-        if let Err(e) = run(raw, 0, true) { bad.push(("c04_panic_flush".into(), e)); }
+        if let Err(e) = go(raw, 0, true) { bad.push(("c04_panic_flush".into(), e)); }
         // C09: HEAD answers like GET without a body; OPTIONS on a servable path is a bodiless success
         if method == "HEAD" || method == "OPTIONS" {
             let as_get = [b"GET".as_ref(), &raw[method.len()..]].concat();
-            if let Ok(og) = run(&as_get, 0, false) { if let Some(pg) = parse(&og) {
+            if let Ok(og) = go(&as_get, 0, false) { if let Some(pg) = parse(&og) {
                 let strip = |p: &Parsed| -> Vec<(String, String)> { p.headers.iter().filter(|(k, _)| k != "Date-Unix-Epoch-Nanos" && !k.starts_with("Access-Control-")).cloned().collect() };
                 if method == "HEAD" && (pg.status == 200 || pg.status == 206) {
                     if p.status != pg.status { bad.push(("c09_head_status".into(), format!("HEAD {} but GET {}", p.status, pg.status))); }
@@ -610,14 +621,20 @@ mod e2e {
         for (i, (name, raw)) in corpus().iter().enumerate() {
             for (case, o) in check(name, raw) { h.hit("e2e", &case, "Server::process", &i.to_string(), &format!("{} :: {}", name, o)); }
         }
+        // the same requests through the legacy entry point (requests that fit its single read)
+        for (i, (name, raw)) in corpus().iter().enumerate() {
+            if raw.len() > 9000 { continue; }
+            for (case, o) in check_entry(name, raw, true) { h.hit("e2e", &case, "Server::process_request", &format!("L{}", i), &format!("legacy entry point, {} :: {}", name, o)); }
+        }
         h.n > 0
     }
     pub fn replay(case: &str, input: &str) -> bool {
         setup();
         let c = corpus();
-        let (name, raw) = &c[input.parse::<usize>().unwrap()];
+        let legacy = input.starts_with('L');
+        let (name, raw) = &c[input.trim_start_matches('L').parse::<usize>().unwrap()];
         let mut found = false;
-        for (k, o) in check(name, raw) { if k == case { report("e2e", &k, "", input, &format!("{} :: {}", name, o)); found = true; } }
+        for (k, o) in check_entry(name, raw, legacy) { if k == case { report("e2e", &k, "", input, &format!("{} :: {}", name, o)); found = true; } }
         found
     }
 }
